@@ -3,6 +3,7 @@ import PdshVerif.Dsh.FanExec
 import PdshVerif.Dsh.FanGLive
 import PdshVerif.Dsh.FanGExec
 import PdshVerif.Dsh.FanRelay
+import PdshVerif.Dsh.FanPoll
 import PdshVerif.Props.C05
 
 /-!
@@ -430,6 +431,92 @@ example : ∃ s, FanRelay.Exec (FanRelay.init .whileWait 1 1 false) demoTrace s 
   cases hr : FanRelay.run (FanRelay.init .whileWait 1 1 false) demoTrace with
   | none => rw [hr] at h; cases h
   | some s => rw [hr] at h; simp at h; exact ⟨s, exec_of_run hr, h.1, h.2⟩
+
+
+/-! ### the same with the worker's loop as CODE (no hypothesis about when the loop is left)
+
+`FanRelay` lets `W i.destroyBegin` happen "when every polled stream of `i` has finished".  `Dsh/FanPoll.lean` composes
+the protocol with the poll / read loop of `_rsh_thread` as property C05 models it (`pollStep`: arrivals, hang-ups,
+`xpoll` returns reporting any subset, short reads, EAGAIN, EINTR, in any order): there the worker leaves the loop when
+its loop condition `xpfds[0].fd >= 0 || xpfds[1].fd >= 0` is false, and that the streams are then over, read to the
+end and written is the relay's theorem (`Relay/Poll.lean: pollRun_inv`, the invariant behind
+`C05.poll_loop_left_only_at_eof_of_both` and `C05.worker_done_has_delivered_everything`), imported here. -/
+
+open PdshVerif.Dsh.FanPoll in
+/-- C03, whole statement, worker loop included: for every fanout, number of targets, wait construct, signalling
+    discipline, schedule of dispatcher and workers, and every behaviour of the remote sides and of `xpoll` / `read`
+    (what arrives when, which descriptors each poll reports, short reads, EAGAIN, EINTR): when dsh() has returned,
+    for every target `i` the command was started exactly once and torn down exactly once, the worker's loop was left
+    with both poll slots retired, and -- if its connect succeeded -- the stdio calls of its stdout handler (final
+    flush included, made before `rcmd_destroy`) write exactly what the remote side sent on stdout before closing it,
+    labelled, complete, in order, once; likewise stderr (with `-s`; without it the stderr slot is never polled and
+    nothing is written for it).  No hypothesis about the loop: its guard is the code's own loop condition. -/
+theorem returns_after_output_delivered_poll (P : FanPoll.Params) {sizeMeta : Nat}
+    (hg : growthOk sizeMeta = true) (hb0 : mkFifoBuf sizeMeta = some P.b0)
+    {v : FanG.Variant} {f n : Nat} {ls : List FanPoll.Label} {s : FanPoll.St}
+    (he : FanPoll.Exec P (FanPoll.init v f n) ls s) (hf : FanG.Final s.fan) (i : Nat) (hi : i < n)
+    (hconn : s.nofd.contains i = false)
+    (hdO : Spec.Dom05 (markerOf true) (acceptedOf false (FanPoll.evsOf s.evs i) false) = true)
+    (hdE : Spec.Dom05 (markerOf false) (acceptedOf true (FanPoll.evsOf s.evs i) (!P.sopt)) = true) :
+    (ls.filterMap FanPoll.projLabel).count (.w i .connectBegin) = 1 ∧
+    (ls.filterMap FanPoll.projLabel).count (.w i .destroyEnd) = 1 ∧
+    PdshVerif.C05.writtenBy (workerFinish fifoOps P.cfg (P.names i) (P.names 0) (FanPoll.worker P s i)) false =
+      Spec.render (labelPrefix P.cfg.labels P.cfg.keep (P.names i)) (acceptedOf false (FanPoll.evsOf s.evs i) false) ∧
+    PdshVerif.C05.writtenBy (workerFinish fifoOps P.cfg (P.names i) (P.names 0) (FanPoll.worker P s i)) true =
+      Spec.render (labelPrefix P.cfg.labels P.cfg.keep (P.names i))
+        (acceptedOf true (FanPoll.evsOf s.evs i) (!P.sopt)) := by
+  have hfe := FanPoll.fan_refinement he
+  have h1 := G.exit_after_all hfe hf i hi
+  refine ⟨h1.1, h1.2.1, ?_⟩
+  have hleft := FanPoll.final_loops_left he hf i hi hconn
+  have hwO : (FanPoll.initW P.sopt P.b0).out.1.weof = false := by cases hs : P.sopt <;> simp [FanPoll.initW, Worker.init]
+  have hwE : (FanPoll.initW P.sopt P.b0).err.1.weof = !P.sopt := by cases hs : P.sopt <;> simp [FanPoll.initW, Worker.init]
+  have hinv := pollRun_inv P.cfg (P.names i) (dom_room hdO) (dom_room hdE) (FanPoll.evsOf s.evs i)
+    (FanPoll.initW P.sopt P.b0) [] [] (by rw [hwO]; simp) (by rw [hwE]; simp)
+    (FanPoll.initW_inv P.cfg (P.names i) P.sopt hg hb0)
+  have hw : FanPoll.worker P s i =
+      (FanPoll.evsOf s.evs i).foldl (pollStep fifoOps P.cfg (P.names i)) (FanPoll.initW P.sopt P.b0) := rfl
+  rw [← hw] at hinv
+  generalize FanPoll.worker P s i = w at hinv hleft ⊢
+  simp only [Worker.loopLeft, Bool.and_eq_true] at hleft
+  obtain ⟨_, hpo⟩ := hinv.out.2 hleft.1
+  obtain ⟨_, hpe⟩ := hinv.err.2 hleft.2
+  obtain ⟨xo, hxo, hfo, h0o⟩ := stream_closed_form P.cfg (P.names i) 1 true (P.names 0) hdO hinv.out.1
+  obtain ⟨xe, hxe, hfe', h0e⟩ := stream_closed_form P.cfg (P.names i) 2 false (P.names 0) hdE hinv.err.1
+  rw [hpo, List.append_nil] at hxo
+  rw [hpe, List.append_nil] at hxe
+  subst hxo; subst hxe
+  constructor
+  · unfold PdshVerif.C05.writtenBy
+    rw [workerFinish_logOf, hinv.logO]
+    simp only [Bool.false_eq_true, ↓reduceIte]
+    rw [hfo]
+    exact PdshVerif.C05.written_of_closed_form P.cfg (P.names i) 1 _ h0o
+  · unfold PdshVerif.C05.writtenBy
+    rw [workerFinish_logOf, hinv.logE]
+    simp only [↓reduceIte]
+    rw [hfe']
+    exact PdshVerif.C05.written_of_closed_form P.cfg (P.names i) 2 _ h0e
+
+/-- non-vacuity of the composition with the loop: one target, fanout 1, no `-s`; "hi" then "\n" arrive on stdout, a
+    poll with a short read of 1 byte, an interrupted poll, a poll that reads the rest, the remote side closes, the
+    poll that sees EOF retires the slot; only then can the worker tear down; dsh() returns -/
+def demoPoll : List FanPoll.Label :=
+  [.fan (.d .lock), .fan (.d (.create 0)), .fan (.d .unlock), .fan (.w 0 .connectBegin), .fan (.w 0 .connectEnd),
+   .pev 0 (.arrive false [104, 105]), .pev 0 (.poll (some (some 1)) none), .pev 0 .eintr,
+   .pev 0 (.arrive false [10]), .pev 0 (.poll (some none) none), .pev 0 (.hup false), .pev 0 (.poll (some none) none),
+   .fan (.w 0 .destroyBegin), .fan (.w 0 .destroyEnd), .fan (.w 0 .lock), .fan (.w 0 .unlockFirst),
+   .fan (.d .lock), .fan (.d .unlock), .fan (.d .ret)]
+
+example : ∀ b0, mkFifoBuf 1 = some b0 →
+    let P : FanPoll.Params := ⟨⟨true, false, false, false, false⟩, fun _ => [104], b0, false⟩
+    ((FanPoll.run P (FanPoll.init .whileWait 1 1) demoPoll).map fun s => s.fan.dpc) = some .returned ∧
+    -- the worker cannot leave the loop one poll earlier (EOF not yet seen): the guard is the loop condition
+    (FanPoll.run P (FanPoll.init .whileWait 1 1) (demoPoll.take 11 ++ [.fan (.w 0 .destroyBegin)])).isNone = true := by
+  intro b0 h
+  simp [mkFifoBuf, Cbuf.Spec.create, Gen.RELAY_CBUF_MIN, Gen.RELAY_CBUF_MAX] at h
+  subst h
+  decide
 
 end EndToEnd
 
